@@ -1,5 +1,5 @@
 (* C04: the VORG table (setupTable_VORG): default = the most frequent vertical origin
-   (Counter.most_common(1): the first-seen value among the most frequent), one record
+   (Counter.most_common(1) over the glyphs in glyph order: the first-seen value among the most frequent), one record
    per glyph whose origin differs; vmtx top side bearing = origin - yMax.
    Definitions only. *)
 From U2F Require Export Base.Prelude.
